@@ -31,7 +31,11 @@ STAGES = ["none", "bad_owner_signature", "expired", "missing_link", "unauthorise
           "failing_step_rule_match_other_algorithm", "failing_step_rule_match_without_digest",
           # the failing step rule is a REQUIRE that is reached when nothing is left to consume: an earlier rule took every
           # artifact / the link recorded no products at all
-          "failing_step_rule_require_after_all_consumed", "failing_step_rule_require_nothing_recorded"]
+          "failing_step_rule_require_after_all_consumed", "failing_step_rule_require_nothing_recorded",
+          # the layout was still valid when the verifying process started (and verified other things); it has expired by the
+          # time it is itself verified
+          "expired_meanwhile"]
+MEANWHILE = {}
 OUTCOMES = ["exit0", "exit1", "exit2", "exit127", "exit255", "killed", "not_found", "creates", "modifies", "deletes"]
 RULESETS = ["none", "satisfied", "violated_materials", "violated_products", "products_only_create_preexisting",
             "violated_products_named_like_a_step", "violated_require_after_all_consumed"]
@@ -106,6 +110,11 @@ def build_cell(W, rng, stage, outcome, rs, ninsp, level, keyset=FUNC, random_ext
     sub_stage = stage.replace("surplus_", "") if (stage.startswith("sublayout_") or surplus) else None
     table = [ka, kb, kc, kd]
     expires = "2020-01-01T00:00:00Z" if stage == "expired" else None
+    if stage == "expired_meanwhile":
+        if "t" not in MEANWHILE:
+            import datetime
+            MEANWHILE["t"] = (datetime.datetime.now(datetime.timezone.utc) + datetime.timedelta(seconds=4)).replace(microsecond=0)
+        expires = MEANWHILE["t"].strftime("%Y-%m-%dT%H:%M:%SZ")
     reqs = []
     inspected_owner = "ed0" if level == "top" else kd
     # links of the inspected layout
@@ -221,7 +230,10 @@ def build_cell(W, rng, stage, outcome, rs, ninsp, level, keyset=FUNC, random_ext
         meta = {"stage": stage, "outcome": outcome, "ruleset": rs, "ninsp": ninsp, "level": level, "tags": tags,
                 "expect": "accept" if (not stage_fails and insp_ok) else "reject", "stage_fails": stage_fails}
         trusted = [[W.kid("ed0"), W.pub("ed0")]] + ([[W.kid("ec-a"), W.pub("ec-a")]] if two_owners else [])
-        return scen.verify_case(top, trusted, files, work_files={"pre.txt": "original\n"}, meta=meta)
+        c = scen.verify_case(top, trusted, files, work_files={"pre.txt": "original\n"}, meta=meta)
+        if stage == "expired_meanwhile":
+            c["not_before_ns"] = str(int(MEANWHILE["t"].timestamp()) * 10 ** 9 + 300_000_000)
+        return c
     return reqs, assemble
 
 
